@@ -14,6 +14,11 @@ import Driver.Restrict
 import Driver.Conc
 import Driver.Dup
 import Driver.XmlRt
+import Driver.XmlScan
+import Driver.LinuxParse
+import Driver.Snapshots
+import Driver.Synthetic
+import Driver.Tools
 open Driver
 
 def main (args : List String) : IO UInt32 := do
@@ -70,6 +75,21 @@ def main (args : List String) : IO UInt32 := do
     return 0
   | ["xmlrt"] =>
     lineLoop stdin stdout ({} : XmlRtEng.St) XmlRtEng.step
+    return 0
+  | ["xmlscan"] =>
+    lineLoop stdin stdout XmlScanEng.init XmlScanEng.step
+    return 0
+  | ["linuxparse"] =>
+    lineLoop stdin stdout () LinuxParseEng.step
+    return 0
+  | ["snapshots"] =>
+    lineLoop stdin stdout ({} : SnapshotsEng.St) SnapshotsEng.step
+    return 0
+  | ["synthetic"] =>
+    lineLoop stdin stdout () SyntheticEng.step
+    return 0
+  | "tools" :: rest =>
+    lineLoop stdin stdout (ToolsEng.init (rest.contains "strict")) ToolsEng.step
     return 0
   | _ =>
     IO.eprintln "usage: hwmodel <engine>"
